@@ -8,6 +8,7 @@
 -/
 import EpsieModel.Generated.Source
 import EpsieModel.Chain
+import EpsieProps.C15
 namespace Epsie.C15
 
 /-- How the model's proposal state is seen by the code: `start_step` exists iff adaptive. -/
@@ -92,6 +93,27 @@ theorem C15_source_contribution (p : PropSt) (lp : Rat) (hns : p.cfg.symmetric =
   rw [C15_source_logpdf]
   unfold Chain.contributes
   simp [hns]
+
+
+/-- The property's schedule, stated on the translated code: the proposal is due at counter `raw` iff
+    its interval is 1, or `jump_interval_duration` proposal steps have elapsed on its clock, or `raw`
+    is a multiple of the interval (composition of the source tie with `C15_schedule`). -/
+theorem C15_source_schedule (p : PropSt) :
+    Gen.callJump (p.raw : Int) (p.cfg.k : Int) (p.cfg.dur : Int) (startOf p) = true ↔
+      (p.cfg.k = 1 ∨ (p.cfg.dur : Int) ≤ p.dkJump ∨ p.raw % p.cfg.k = 0) := by
+  rw [C15_source_call_jump]
+  exact C15_schedule p
+
+/-- ... and on the translated `jump`: a proposal that is not due returns the point it was given. -/
+theorem C15_source_not_due_copies {α : Type} (p : PropSt) (fromx jumped : α)
+    (h : ¬ (p.cfg.k = 1 ∨ (p.cfg.dur : Int) ≤ p.dkJump ∨ p.raw % p.cfg.k = 0)) :
+    Gen.jump α (p.raw : Int) (p.cfg.k : Int) (p.cfg.dur : Int) (startOf p) fromx jumped = fromx := by
+  rw [C15_source_jump]
+  have : p.callJump = false := by
+    cases hc : p.callJump
+    · rfl
+    · exact absurd ((C15_schedule p).mp hc) h
+  simp [this]
 
 /-- Non-vacuity / sanity: a slow adaptive proposal (k = 3, duration 4, start step 1) at counter 4
     is not due, at counter 6 it is. -/
